@@ -154,6 +154,9 @@ def Recv.resetSizeErr (r : Recv) (finalOffset : Nat) : Option TErr :=
 /-- `reset` after the size validation -/
 def Recv.resetTail (r : Recv) (code finalOffset received maxData : Nat) :
     Option (Except TErr (Bool × Recv)) :=
+  -- a retransmitted RESET_STREAM (same final size) is noticed before the flow-control test
+  if Gen.resetDuplicateBeforeCredit && !r.isReceiving then some (.ok (false, r))
+  else
   match r.creditConsumedBy finalOffset received maxData with
   | none => none
   | some (.error e) => some (.error e)
